@@ -75,6 +75,8 @@ func main() {
 		opAlias(r, *n, *tier)
 	case "pppipe":
 		opPPPipe(r, *n, *tier)
+	case "progs":
+		opProgs(r, *n, *tier, *seed)
 	case "replay":
 		opReplay()
 	default:
